@@ -19,12 +19,13 @@ static inline _Bool vopt_has(const vopt_scope* o) { return o->has; }
 #define vopt_CMsgPackReadArrayScope_IMsgPackReader_has_value___k vopt_has
 #define vopt_CMsgPackReadObjectScope_IMsgPackReader_has_value___k vopt_has
 #define vopt_CMsgPackReadBinaryScope_IMsgPackReader_has_value___k vopt_has
+typedef struct { int _opaque; } std_tuple_vstr_c8_vsv_c8_i64_u64_f32_f64_CBinTimestamp;
 #include "gen.h"
-static inline vopt_scope mk_child(unsigned long* sz, void* reader, void* parent) { vopt_scope o; o.has = 1; o.size = *sz; o.reader = reader; o.parent = parent; return o; }
-#define m_std_make_optional_CMsgPackReadArrayScope_IMsgPackReader_ru64_rpIMsgPackReader_rSerializationContext_pCMsgPackReadArrayScope_IMsgPackReader__ru64_rpIMsgPackReader_rSerializationContext_xpCMsgPackReadArrayScope_IMsgPackReader(sz, rd, ctx, par) mk_child(sz, *(rd), *(par))
-#define m_std_make_optional_CMsgPackReadObjectScope_IMsgPackReader_ru64_rpIMsgPackReader_rSerializationContext_pCMsgPackReadArrayScope_IMsgPackReader__ru64_rpIMsgPackReader_rSerializationContext_xpCMsgPackReadArrayScope_IMsgPackReader(sz, rd, ctx, par) mk_child(sz, *(rd), *(par))
-#define m_std_make_optional_CMsgPackReadBinaryScope_IMsgPackReader_ru64_rkpIMsgPackReader_rSerializationContext__ru64_rkpIMsgPackReader_rSerializationContext(sz, rd, ctx) mk_child(sz, (void*)*(rd), 0)
-#define m_std_make_optional_CMsgPackReadBinaryScope_IMsgPackReader_ru64_rpIMsgPackReader_rSerializationContext__ru64_rpIMsgPackReader_rSerializationContext(sz, rd, ctx) mk_child(sz, (void*)*(rd), 0)   /* (non-const OpenBinaryScope) */
+/* std::make_optional<Scope>(...) is extracted as the scope's real constructor followed by this model call: the child is described by what its constructor stored */
+static inline vopt_scope vopt_CMsgPackReadArrayScope_IMsgPackReader_make(struct CMsgPackReadArrayScope_IMsgPackReader* t) { vopt_scope o; o.has = 1; o.size = t->mSize; o.reader = t->mMsgPackReader; o.parent = t->__base_CMsgPackScopeBase.mParentScope; __CPROVER_assert(t->mIndex == 0, "C05: a new child scope starts at element 0"); return o; }
+static unsigned long g_child_start;
+static inline vopt_scope vopt_CMsgPackReadObjectScope_IMsgPackReader_make(struct CMsgPackReadObjectScope_IMsgPackReader* t) { __CPROVER_assert(t->mStartPos == g_child_start && t->mIndex == 0, "C03: a new object scope remembers the reader position of its first key and starts at pair 0"); vopt_scope o; o.has = 1; o.size = t->mSize; o.reader = t->mMsgPackReader; o.parent = t->__base_CMsgPackScopeBase.mParentScope; __CPROVER_assert(t->mIndex == 0, "C05: a new child scope starts at element 0"); return o; }
+static inline vopt_scope vopt_CMsgPackReadBinaryScope_IMsgPackReader_make(struct CMsgPackReadBinaryScope_IMsgPackReader* t) { vopt_scope o; o.has = 1; o.size = t->mSize; o.reader = t->mMsgPackReader; o.parent = t->__base_CMsgPackScopeBase.mParentScope; __CPROVER_assert(t->mIndex == 0, "C05: a new child scope starts at element 0"); return o; }
 
 /* ---- reader interface contract (each implementation is proved against the same statement in msgpack_sreader / msgpack_skip) ---- */
 static size_t g_consumed; static unsigned g_calls;
@@ -46,6 +47,9 @@ _Bool IMsgPackReader_ReadArraySize__ru64(struct IMsgPackReader* r, unsigned long
 _Bool IMsgPackReader_ReadMapSize__ru64(struct IMsgPackReader* r, unsigned long* v) { _Bool ok = rd_one_value(); if (ok) *v = nondet_ulong(); return ok; }
 _Bool IMsgPackReader_ReadBinarySize__ru64(struct IMsgPackReader* r, unsigned long* v) { _Bool ok = rd_one_value(); if (ok) *v = nondet_ulong(); return ok; }
 char IMsgPackReader_ReadBinary(struct IMsgPackReader* r) { g_calls++; if (nondet_bool()) { __verif_exc = EXC_ParsingException; return 0; } g_consumed++; return nondet_char(); }
+/* constructor of a child object scope: remembers the reader position (start of the map) and starts without a current key */
+unsigned long IMsgPackReader_GetPosition___k(const struct IMsgPackReader* r) { g_child_start = nondet_ulong(); return g_child_start; }
+void CVariableKey_std_tuple_vstr_c8_vsv_c8_i64_u64_f32_f64_CBinTimestamp_ctor(struct CVariableKey_std_tuple_vstr_c8_vsv_c8_i64_u64_f32_f64_CBinTimestamp* k) { (void)k; }
 #include "gen.c"
 
 static struct IMsgPackReader g_reader; static struct SerializationContext g_ctx;
